@@ -344,6 +344,7 @@ class Stmts:
         if isinstance(cur, VDict):
             cur.items = []
             cur.havocked = True
+            cur.log = []  # type: ignore
             d_ann = None
             if ann is not None:
                 try:
